@@ -1,6 +1,7 @@
 package props
 
 import (
+	"encoding/json"
 	"fmt"
 	"runtime"
 	"strconv"
@@ -14,6 +15,7 @@ import (
 	"verif/harness/gen"
 	"verif/harness/hist"
 	"verif/harness/lib"
+	"verif/harness/model"
 	"verif/harness/sut"
 )
 
@@ -56,6 +58,8 @@ type c05Call struct {
 	kind string // op | shared | helper
 	op   *hist.Op
 	inst []byte // shared validator
+	which int   // which shared validator
+	val   any   // value for the shared parameter / header validator
 	pat  string // helper
 	data string
 	ref  string
@@ -66,12 +70,42 @@ func (p *c05) Run(w *lib.Worker, idx int, r *lib.Rand) lib.Case {
 	c := lib.Case{Hash: lib.Hash64([]byte(fmt.Sprintf("g=%d procs=%d idx=%d", g, procs, idx))), Nums: map[string]int64{}}
 	c.Tags = []string{fmt.Sprintf("goroutines:%d", g), fmt.Sprintf("GOMAXPROCS:%d", runtime.GOMAXPROCS(0))}
 
-	// a validator object shared by every goroutine ($ref-free schema, no recycling)
+	// validator objects shared by every goroutine (no recycling; $ref-free schemas): a generated schema, a generated
+	// schema carrying defaults, a directed schema (required members with defaults, nested under items / allOf /
+	// patternProperties / additionalProperties), and a parameter and a header validator over arrays of arrays
 	sg := &gen.SchemaGen{R: r.Fork(), O: gen.SchemaOpts{MaxDepth: 3, Refs: false, SpecialNames: true}}
 	sharedDoc := sg.Document()
-	sharedText := gen.JSON(sharedDoc)
-	sharedSchema, _ := sut.Schema(sharedText)
-	shared := validate.NewSchemaValidator(sharedSchema, nil, "shared", strfmt.Default)
+	sharedSchema, _ := sut.Schema(gen.JSON(sharedDoc))
+	sgd := &gen.SchemaGen{R: r.Fork(), O: gen.SchemaOpts{MaxDepth: 3, Refs: false, SpecialNames: true, Defaults: true}}
+	sharedDocD := sgd.Document()
+	sharedSchemaD, _ := sut.Schema(gen.JSON(sharedDocD))
+	var directedDoc map[string]any
+	_ = json.Unmarshal([]byte(c05DirectedShared), &directedDoc)
+	directedSchema, _ := sut.Schema([]byte(c05DirectedShared))
+	sharedSchemas := []*validate.SchemaValidator{
+		validate.NewSchemaValidator(sharedSchema, nil, "shared", strfmt.Default),
+		validate.NewSchemaValidator(sharedSchemaD, nil, "sharedD", strfmt.Default),
+		validate.NewSchemaValidator(directedSchema, nil, "directed", strfmt.Default),
+	}
+	sharedInst := func(rg *lib.Rand) (int, []byte) {
+		switch k := rg.Intn(3); k {
+		case 0:
+			return 0, gen.JSON(sg.Instance(sharedDoc, sharedDoc, 0, 0.3))
+		case 1:
+			return 1, gen.JSON(sgd.Instance(sharedDocD, sharedDocD, 0, 0.3))
+		default:
+			return 2, []byte(c05DirectedInstances[rg.Intn(len(c05DirectedInstances))])
+		}
+	}
+	max3, min1 := 3.0, int64(1)
+	gridDef := &model.SimpleDef{Type: "array", Items: &model.SimpleDef{Type: "array", MinItems: &min1, Items: &model.SimpleDef{Type: "integer", Maximum: &max3, Enum: []any{1.0, 2.0, 3.0, 9.0}}}}
+	smp := &gen.SimpleGen{R: r.Fork()}
+	sharedParam := validate.NewParamValidator(smp.Param(gridDef, "grid", "query"), strfmt.Default)
+	sharedHeader := validate.NewHeaderValidator("X-Grid", smp.Header(gridDef), strfmt.Default)
+	grids := []any{
+		[]any{[]any{}, []any{int64(1)}}, []any{[]any{int64(9)}}, []any{[]any{int64(1), int64(2)}, []any{int64(4)}}, []any{[]any{int64(3)}, []any{}, []any{int64(2), int64(7)}},
+		[][]int64{{1}, {2, 3}}, [][]int64{{}, {5}}, []any{[]any{"x"}}, []any{},
+	}
 
 	specBudget := 8
 	if w.Tier == "thorough" {
@@ -103,7 +137,12 @@ func (p *c05) Run(w *lib.Worker, idx int, r *lib.Rand) lib.Case {
 			perG[gi] = append(perG[gi], &c05Call{kind: "op", op: op})
 			switch rg.Intn(5) {
 			case 0:
-				perG[gi] = append(perG[gi], &c05Call{kind: "shared", inst: gen.JSON(sg.Instance(sharedDoc, sharedDoc, 0, 0.3))})
+				if rg.P(0.3) {
+					perG[gi] = append(perG[gi], &c05Call{kind: "shared-simple", which: rg.Intn(2), val: grids[rg.Intn(len(grids))]})
+				} else {
+					which, inst := sharedInst(rg)
+					perG[gi] = append(perG[gi], &c05Call{kind: "shared", which: which, inst: inst})
+				}
 			case 1:
 				pat := gen.Patterns[rg.Intn(len(gen.Patterns))]
 				ps := pat.P
@@ -124,7 +163,14 @@ func (p *c05) Run(w *lib.Worker, idx int, r *lib.Rand) lib.Case {
 		case "shared":
 			return sut.Guard(func() sut.Outcome {
 				v, _ := sut.Value(cl.inst)
-				return sut.FromResult(shared.Validate(v))
+				return sut.FromResult(sharedSchemas[cl.which].Validate(v))
+			}).Key()
+		case "shared-simple":
+			return sut.Guard(func() sut.Outcome {
+				if cl.which == 0 {
+					return sut.FromResult(sharedParam.Validate(cl.val))
+				}
+				return sut.FromResult(sharedHeader.Validate(cl.val))
 			}).Key()
 		default:
 			e1 := validate.Pattern("p", "body", cl.data, cl.pat)
@@ -255,7 +301,9 @@ func renderCall(cl *c05Call) any {
 	case "op":
 		return cl.op.Render()
 	case "shared":
-		return map[string]any{"kind": "shared-validator", "instance": string(cl.inst)}
+		return map[string]any{"kind": "shared-validator", "which": cl.which, "instance": string(cl.inst)}
+	case "shared-simple":
+		return map[string]any{"kind": "shared-parameter-or-header-validator", "which": cl.which, "value": fmt.Sprintf("%#v", cl.val)}
 	default:
 		return map[string]any{"kind": "helpers", "pattern": cl.pat, "data": cl.data}
 	}
@@ -271,4 +319,18 @@ func (p *c05) Finish(a *lib.Aggregate) (broken []string) {
 		}
 	}
 	return
+}
+
+// A directed schema for the shared validator: required members which have defaults, at several nesting
+// positions, so that every per-call scratch value of the object validators is exercised by all goroutines at once.
+const c05DirectedShared = `{"type":"object","required":["id","tags"],
+ "properties":{"id":{"type":"string","default":"none"},"tags":{"type":"array","default":[],"items":{"type":"object","required":["k","v"],"properties":{"k":{"type":"string","default":"key"},"v":{"type":"integer","default":0,"maximum":10}}}},
+   "meta":{"allOf":[{"type":"object","required":["a"],"properties":{"a":{"type":"integer","default":1}}},{"type":"object","required":["b"],"properties":{"b":{"type":"string","default":"bee","minLength":2}}}]}},
+ "patternProperties":{"^x-":{"type":"object","required":["on"],"properties":{"on":{"type":"boolean","default":true}}}},
+ "additionalProperties":{"type":"object","required":["z"],"properties":{"z":{"type":"number","default":1.5}}}}`
+
+var c05DirectedInstances = []string{
+	`{}`, `{"id":"i1"}`, `{"tags":[{}]}`, `{"tags":[{"k":"a"},{"v":3},{"k":"b","v":11}]}`, `{"id":"i","tags":[{"v":12}]}`,
+	`{"meta":{}}`, `{"meta":{"a":2}}`, `{"meta":{"b":"x"}}`, `{"x-a":{}}`, `{"x-a":{"on":false},"x-b":{}}`, `{"other":{}}`, `{"other":{"z":"no"}}`,
+	`{"id":5}`, `{"tags":[{"k":1}]}`, `[]`, `{"meta":{"a":"s","b":"ok"},"other":{},"x-q":{"on":1}}`,
 }
